@@ -32,6 +32,11 @@ func init() {
 			var c c11Case
 			if json.Unmarshal(raw, &c) == nil && len(c.Slots) > 0 {
 				c11Eval(w, &c, true)
+				return
+			}
+			var g GCase
+			if json.Unmarshal(raw, &g) == nil && g.Origin == "token-with-rules" {
+				c11TokensWithRules(w)
 			}
 		},
 	})
@@ -66,6 +71,8 @@ func c11Menu() []tokSlot {
 	m = append(m, tokSlot{Kind: "litunused", Char: '!'}, tokSlot{Kind: "litprecunused", Char: '~'})
 	// a literal that is a blank
 	m = append(m, tokSlot{Kind: "lit", Char: ' '}, tokSlot{Kind: "lituse", Char: ' '})
+	// a numbered token that gets its value tag from a %type line
+	m = append(m, tokSlot{Kind: "numtyped", Num: 520})
 	return m
 }
 
@@ -75,7 +82,7 @@ func (c *c11Case) valid() bool {
 	chars := map[rune]bool{}
 	for i, s := range c.Slots {
 		switch s.Kind {
-		case "num", "numz", "twice", "precthennum":
+		case "num", "numz", "twice", "precthennum", "numtyped":
 			n := s.Num
 			if s.Kind == "twice" && s.Num >= 100 {
 				n += i
@@ -133,6 +140,10 @@ func (c *c11Case) spec() (*gram.Spec, map[string]int, []string) {
 				aliases = append(aliases, name)
 				continue
 			}
+		case "numtyped":
+			s.Tokens = append(s.Tokens, gram.TokDecl{Name: name, Num: sl.Num})
+			s.Types = append(s.Types, gram.TypeDecl{Tag: "v", Names: []string{name}})
+			want[name] = sl.Num
 		case "twice":
 			n := sl.Num
 			if n >= 100 {
@@ -188,7 +199,43 @@ func (c *c11Case) spec() (*gram.Spec, map[string]int, []string) {
 	return s, want, order
 }
 
+// c11TokensWithRules: a name declared with %token and then given rules. yacc refuses that ("rule given
+// for token"); a refusal is fine. If yaccgo generates, the declared token must still be a terminal with
+// its constant and its translate case like every other named token.
+func c11TokensWithRules(w *Worker) {
+	if w.Shard != 0 {
+		return
+	}
+	for _, text := range []string{
+		"%token TA TB TC\n%start S\n%%\nS : TA TB TC ;\nTB : TA ;\n",
+		"%token TA TB\n%left TC\n%start S\n%%\nS : TA TC TB ;\nTC : TA | TC TA ;\n",
+		"%token TA 300 TB 301\n%start S\n%%\nS : TB TA ;\nTA : TB TB ;\n",
+	} {
+		w.Count("evaluations", 1)
+		w.Count("tokens_with_rules", 1)
+		res := ygo.Build(text, ygo.Options{Fuel: buildFuel})
+		if !res.OK() {
+			w.Count("tokens_with_rules_refused", 1)
+			continue
+		}
+		terminal := map[string]bool{}
+		for _, sy := range res.V.G.Symbols {
+			if !sy.IsNonTerminator {
+				terminal[sy.Name] = true
+			}
+		}
+		for _, name := range []string{"TA", "TB", "TC"} {
+			if strings.Contains(text, name) && !terminal[name] {
+				w.Violate("C11|token-missing|token-with-rules|"+text, fmt.Sprintf("token-missing: %q: the name %s is declared as a token and yaccgo generates without a diagnostic, but %s is not a terminal of the grammar it built: its constant is emitted and the code-to-symbol translation has no case for it", text, name, name),
+					&GCase{Origin: "token-with-rules", Extra: mustJSON(text)}, map[string]interface{}{"grammar_text": text})
+				break
+			}
+		}
+	}
+}
+
 func c11Work(w *Worker) {
+	c11TokensWithRules(w)
 	menu := c11Menu()
 	maxK := 3
 	if w.Thorough() {
